@@ -42,7 +42,7 @@ fn rand_claim(rng: &mut Rng, t: ClaimType) -> ClaimData {
         },
         ClaimType::Number => NumberClaim::from(*rng.pick(&[isize::MIN, -6, -5, -1, 0, 6, 7, 8, 17, 18, 19, isize::MAX])).into(),
         ClaimType::Scalar => ScalarClaim::from(rng.scalar()).into(),
-        ClaimType::Revocation => RevocationClaim::from(*rng.pick(&["rev-1", "rev-2", "ab", "abc", "1234"])).into(),
+        ClaimType::Revocation => RevocationClaim::from(*rng.pick(&["rev-1", "rev-2", "ab", "abc", "1234", "é", "éé", "日本", "ée\u{301}"])).into(),
         ClaimType::Enumeration => EnumerationClaim { dst: "e".into(), value: rng.below(3) as u8, total_values: 3 }.into(),
         ClaimType::Unknown => NumberClaim::from(0).into(),
     }
@@ -199,6 +199,33 @@ fn grid<S: ShortGroupSignatureScheme>(em: &mut Emitter, suite: &str) {
             let claims: Vec<ClaimData> = vec![RevocationClaim::from(format!("g{}", n).as_str()).into(), val.clone()];
             em.count(&format!("grid:{}", match v { ClaimValidator::Regex(_) => "regex", ClaimValidator::Length { .. } => "length", ClaimValidator::Range { .. } => "range", ClaimValidator::AnyOne(_) => "anyone" }));
             eval_case(em, suite, 100_000 + vi, &cs, &schema_claims, &mut issuer, &[], &claims);
+        }
+    }
+    // validators on the revocation claim itself × identifiers whose character count, byte length and
+    // grapheme count differ (lengths are byte lengths, as for hashed claims and as in the signed encoding)
+    let rev_validators: Vec<ClaimValidator> = vec![
+        ClaimValidator::Length { min: Some(2), max: Some(3) }, ClaimValidator::Length { min: Some(3), max: None }, ClaimValidator::Length { min: None, max: Some(2) },
+        ClaimValidator::Length { min: None, max: Some(4) }, ClaimValidator::Length { min: Some(5), max: Some(16) }, ClaimValidator::Length { min: Some(8), max: None },
+        ClaimValidator::Length { min: None, max: Some(0) }, ClaimValidator::Length { min: None, max: None },
+        rx("^.{1,4}$"), rx("^..$"), rx("é"), rx("^[a-c]+$"), rx("(?s)^.*$"), rx("^$"),
+        ClaimValidator::Range { min: Some(-5), max: Some(7) },
+        ClaimValidator::AnyOne(vec![RevocationClaim::from("éé").into(), HashedClaim::from("ab").into()]),
+    ];
+    let rev_values = ["ab", "abc", "abcd", "é", "éé", "ééé", "éééééé", "日本", "日本語", "e\u{301}", "1234", "éééééééé-0000001", "abcdefghijklmnopq", "a", "\u{1F600}"];
+    for (vi, v) in rev_validators.iter().enumerate() {
+        for val in rev_values.iter() {
+            let schema_claims = vec![
+                ClaimSchema { claim_type: ClaimType::Revocation, label: "id".into(), print_friendly: false, validators: vec![v.clone()] },
+                ClaimSchema { claim_type: ClaimType::Number, label: "x".into(), print_friendly: false, validators: vec![] },
+            ];
+            let cs = match CredentialSchema::new(Some("c15r"), None, &[], &schema_claims) {
+                Ok(s) => s,
+                Err(_) => continue,
+            };
+            let (_p, mut issuer) = Issuer::<S>::new(&cs);
+            let claims: Vec<ClaimData> = vec![RevocationClaim::from(*val).into(), NumberClaim::from(3).into()];
+            em.count("grid:revocation-claim-validator");
+            eval_case(em, suite, 200_000 + vi, &cs, &schema_claims, &mut issuer, &[], &claims);
         }
     }
 }
